@@ -6,6 +6,7 @@ void registerNodeList();
 void registerLowLevel();
 void registerCapi();
 void registerThreads();
+void registerLeak();
 void registerAll()
 {
     registerNum();
@@ -16,4 +17,5 @@ void registerAll()
     registerLowLevel();
     registerCapi();
     registerThreads();
+    registerLeak();
 }
